@@ -32,6 +32,9 @@
 #include <soundswallower/hmm.h>
 #include <soundswallower/tmat.h>
 #include <soundswallower/glist.h>
+#include <soundswallower/dict.h>
+#include <soundswallower/dict2pid.h>
+#include <soundswallower/bin_mdef.h>
 
 static decoder_t *dec;
 static const char *hmmdir;
@@ -115,11 +118,15 @@ static void collect(fsg_search_t *fs)
         for (pn = lt->alloc_head[s]; pn; pn = pn->alloc_next) n_pn++;
     pn_by_id = (fsg_pnode_t **)malloc(sizeof(*pn_by_id) * (n_pn + 1));
     pn_sorted = (pent_t *)malloc(sizeof(*pn_sorted) * (n_pn + 1));
+    /* ids in ALLOCATION order, state by state: alloc_head[s] is threaded newest first */
     i = 0;
-    for (s = 0; s < fsg_model_n_state(fsg); s++)
-        for (pn = lt->alloc_head[s]; pn; pn = pn->alloc_next) {
-            pn_by_id[i] = pn; pn_sorted[i].p = pn; pn_sorted[i].id = i; i++;
-        }
+    for (s = 0; s < fsg_model_n_state(fsg); s++) {
+        int k = 0, j = 0;
+        for (pn = lt->alloc_head[s]; pn; pn = pn->alloc_next) k++;
+        for (pn = lt->alloc_head[s]; pn; pn = pn->alloc_next, j++) pn_by_id[i + k - 1 - j] = pn;
+        i += k;
+    }
+    for (i = 0; i < n_pn; i++) { pn_sorted[i].p = pn_by_id[i]; pn_sorted[i].id = i; }
     qsort(pn_sorted, n_pn, sizeof(*pn_sorted), cmp_pent);
     links = (fsg_link_t **)malloc(sizeof(*links) * cap);
     n_links = 0;
@@ -130,6 +137,61 @@ static void collect(fsg_search_t *fs)
             links[n_links++] = fsg_arciter_get(it);
         }
     }
+}
+
+/* what psubtree_add_trans / fsg_lextree_lc_rc read: the words of the FSG (pronunciation, filler flags), and the
+ * senone-sequence lookups through the very macros/functions the lextree code uses */
+static void dump_build_inputs(fsg_search_t *fs)
+{
+    fsg_lextree_t *lt = fs->lextree;
+    fsg_model_t *fsg = fs->fsg;
+    dict_t *dict = lt->dict;
+    dict2pid_t *d2p = lt->d2p;
+    bin_mdef_t *m = lt->mdef;
+    int nci = bin_mdef_n_ciphone(m), sil = bin_mdef_silphone(m), w, k, c;
+    unsigned char *seen_lr = (unsigned char *)calloc(nci, 1);
+    unsigned char *seen_ld = (unsigned char *)calloc((size_t)nci * nci, 1);
+    unsigned char *seen_rs = (unsigned char *)calloc((size_t)nci * nci, 1);
+    printf("LI %d %d %d %d %d %d\n", nci, sil, lt->wip, lt->pip, fsg_model_n_state(fsg), fsg_model_n_word(fsg));
+    for (c = 0; c < nci; c++) printf("LC %d %d %d\n", c, (int)bin_mdef_pid2ssid(m, c), (int)bin_mdef_pid2tmatid(m, c));
+    for (w = 0; w < fsg_model_n_word(fsg); w++) {
+        int dw = dict_wordid(dict, fsg_model_word_str(fsg, w)), n;
+        if (dw < 0) { printf("LW %d -1 %d 0 0\n", w, fsg_model_is_filler(fsg, w) ? 1 : 0); continue; }
+        n = dict_pronlen(dict, dw);
+        printf("LW %d %d %d %d %d", w, dw, fsg_model_is_filler(fsg, w) ? 1 : 0, dict_filler_word(dict, dw) ? 1 : 0, n);
+        for (k = 0; k < n; k++) printf(" %d", (int)dict_pron(dict, dw, k));
+        printf("\n");
+        if (n == 1) {
+            int ci = dict_first_phone(dict, dw);
+            if (!seen_lr[ci]) {
+                seen_lr[ci] = 1;
+                printf("LR %d", ci);
+                for (c = 0; c < nci; c++) printf(" %d", (int)dict2pid_lrdiph_rc(d2p, ci, c, sil));
+                printf("\n");
+            }
+        } else if (n > 1) {
+            int ci = dict_pron(dict, dw, 0), rc = dict_pron(dict, dw, 1);
+            int fci = dict_pron(dict, dw, n - 1), flc = dict_pron(dict, dw, n - 2);
+            if (!seen_ld[ci * nci + rc]) {
+                seen_ld[ci * nci + rc] = 1;
+                printf("LD %d %d", ci, rc);
+                for (c = 0; c < nci; c++) printf(" %d", (int)dict2pid_ldiph_lc(d2p, ci, rc, c));
+                printf("\n");
+            }
+            for (k = 1; k < n - 1; k++) printf("LN %d %d %d\n", dw, k, (int)dict2pid_internal(d2p, dw, k));
+            if (!seen_rs[fci * nci + flc]) {
+                xwdssid_t *rs = dict2pid_rssid(d2p, fci, flc);
+                seen_rs[fci * nci + flc] = 1;
+                printf("LS %d %d %d", fci, flc, rs->cimap ? rs->n_ssid : -1);
+                if (rs->cimap) {
+                    for (c = 0; c < nci; c++) printf(" %d", (int)rs->cimap[c]);
+                    for (c = 0; c < rs->n_ssid; c++) printf(" %d", (int)rs->ssid[c]);
+                }
+                printf("\n");
+            }
+        }
+    }
+    free(seen_lr); free(seen_ld); free(seen_rs);
 }
 
 static void dump_static(fsg_search_t *fs)
@@ -148,17 +210,22 @@ static void dump_static(fsg_search_t *fs)
     i = 0;
     for (s = 0; s < fsg_model_n_state(fsg); s++) {
         fsg_pnode_t *pn;
-        for (pn = lt->alloc_head[s]; pn; pn = pn->alloc_next, i++) {
+        int k = 0, q;
+        for (pn = lt->alloc_head[s]; pn; pn = pn->alloc_next) k++;
+        for (q = 0; q < k; q++, i++) {
             int j;
+            pn = pn_by_id[i];
+            /* the context set with the most significant word first, so that the whole is one hex number */
             printf("P %d %d %d %d %d %d %d %d %d ", i, s, pn->leaf ? 1 : 0, pn->leaf ? link_id(pn->next.fsglink) : -1,
                    pn->leaf ? -1 : pn_id(pn->next.succ), pn_id(pn->sibling), (int)pn->ci_ext, (int)pn->ppos,
                    (int)pn->hmm.tmatid);
-            for (j = 0; j < FSG_PNODE_CTXT_BVSZ; j++) printf("%08x", pn->ctxt.bv[j]);
-            printf(" %d %d\n", (int)pn->hmm.mpx, (int)pn->hmm.n_emit_state);
+            for (j = FSG_PNODE_CTXT_BVSZ - 1; j >= 0; j--) printf("%08x", pn->ctxt.bv[j]);
+            printf(" %d %d %d %d\n", (int)pn->hmm.mpx, (int)pn->hmm.n_emit_state, (int)hmm_nonmpx_ssid(&pn->hmm), pn->logs2prob);
             if (pn->hmm.tmatid >= 0 && pn->hmm.tmatid < tm->n_tmat) seen[pn->hmm.tmatid] = 1;
         }
         if (lt->root[s]) printf("R %d %d\n", s, pn_id(lt->root[s]));
     }
+    dump_build_inputs(fs);
     for (i = 0; i < tm->n_tmat; i++) {
         int a, b;
         if (!seen[i]) continue;
